@@ -801,12 +801,14 @@ Proof.
 Qed.
 
 Lemma blob_loop_exact : forall fuel value mtu o,
-  2 <= mtu -> mtu - 1 < Z.of_nat (length value) ->
+  2 <= mtu -> mtu - 1 < Z.of_nat (length value) -> Z.of_nat (length value) <= 0xFFFF ->
   (o <= length value)%nat -> (length value - o < fuel)%nat ->
   read_blob_loop fuel (srv_read_blob mtu value) mtu (firstn o value) (Z.of_nat o) = RDone value.
 Proof.
-  induction fuel as [|f IH]; intros value mtu o Hm Hlong Ho Hf; [lia|].
-  cbn [read_blob_loop]. unfold srv_read_blob at 1.
+  induction fuel as [|f IH]; intros value mtu o Hm Hlong Hmax Ho Hf; [lia|].
+  cbn [read_blob_loop].
+  assert (B0 : (0xFFFF <? Z.of_nat o) = false) by lia. rewrite B0.
+  unfold srv_read_blob at 1.
   assert (B1 : (Z.of_nat (length value) <? Z.of_nat o) = false) by lia. rewrite B1.
   assert (B2 : (Z.of_nat (length value) <=? mtu - 1) = false) by lia. rewrite B2.
   unfold sublist. rewrite Nat2Z.id.
@@ -824,10 +826,10 @@ Qed.
 
 (* a client reading an attribute of a Bumble server gets exactly its current value, whatever
    its length and whatever the ATT_MTU; it needs at most length+1 requests *)
-Theorem long_read_exact : forall value mtu, 2 <= mtu ->
+Theorem long_read_exact : forall value mtu, 2 <= mtu -> Z.of_nat (length value) <= 0xFFFF ->
   read_from_server (S (length value)) mtu value = RDone value.
 Proof.
-  intros value mtu Hm. unfold read_from_server, read_value, srv_read. cbn [negb andb].
+  intros value mtu Hm Hmax. unfold read_from_server, read_value, srv_read. cbn [negb andb].
   set (k := Z.to_nat (Z.min (mtu - 1) (Z.of_nat (length value)))).
   assert (Lk : length (firstn k value) = k) by (rewrite firstn_length; subst k; lia).
   rewrite Lk.
@@ -835,7 +837,9 @@ Proof.
   - assert (Hk : Z.of_nat k = mtu - 1) by lia.
     destruct (Z.eq_dec (Z.of_nat (length value)) (mtu - 1)) as [Heq|Hne].
     + (* exactly mtu-1 bytes: the server says "attribute not long" *)
-      cbn [read_blob_loop]. unfold srv_read_blob.
+      cbn [read_blob_loop].
+      assert (B0 : (0xFFFF <? Z.of_nat k) = false) by lia. rewrite B0.
+      unfold srv_read_blob.
       assert (B1 : (Z.of_nat (length value) <? Z.of_nat k) = false) by lia. rewrite B1.
       assert (B2 : (Z.of_nat (length value) <=? mtu - 1) = true) by lia. rewrite B2.
       cbn. f_equal. apply firstn_all2. lia.
@@ -1408,3 +1412,303 @@ Proof.
     destruct es as [|e es]; [reflexivity|].
     destruct (proc start (e :: es)); try reflexivity. apply IH. exact H.
 Qed.
+
+(* ================================================================== extension: more procedures *)
+(* --- read_characteristics_by_uuid: same loop, values taken raw *)
+Lemma proc_plain_raw_progress start : forall es acc lh a s',
+  start <= lh -> proc_plain_raw start es acc lh = Next a s' -> start < s'.
+Proof.
+  induction es as [|e es IH]; intros acc lh a s' Hle H; cbn [proc_plain_raw] in H.
+  - inversion H. lia.
+  - destruct (e_h e <? start) eqn:B; [discriminate|]. eapply IH; [|exact H]. lia.
+Qed.
+
+Lemma proc_plain_raw_progress0 start es a s' :
+  es <> [] -> proc_plain_raw start es [] 0 = Next a s' -> start < s'.
+Proof.
+  destruct es as [|e es]; [congruence|]. intros _ H. cbn [proc_plain_raw] in H.
+  destruct (e_h e <? start) eqn:B; [discriminate|].
+  eapply proc_plain_raw_progress; [|exact H]. lia.
+Qed.
+
+Lemma read_characteristics_by_uuid_terminates : forall r sh se, 0 <= sh -> se <= 0xFFFF ->
+  finishes (read_characteristics_by_uuid (fuel_for sh) r sh se) 65536.
+Proof.
+  intros r sh se H0 He. unfold read_characteristics_by_uuid, finishes, fuel_for.
+  destruct (loop_terminates (cond_le se) (fun s es => proc_plain_raw s es [] 0) false r
+              (fun s => cond_le_bound se s He) (fun s es a s' => proc_plain_raw_progress0 s es a s')
+              (Z.to_nat (0x10000 - sh)) 0%nat sh []) as [H1 H2]; [lia|].
+  split; [exact H1|lia].
+Qed.
+
+(* --- the long read loop against ANY peer: the offset grows by at least ATT_MTU-1 >= 1 per
+       request and a request with an offset above 0xFFFF cannot be built, so read_value ends
+       (normally or with an exception) within 0x10000 Read Blob requests *)
+Lemma read_blob_loop_terminates : forall fuel blob mtu acc off,
+  2 <= mtu -> 0 <= off -> (Z.to_nat (0x10000 - off) < fuel)%nat ->
+  read_blob_loop fuel blob mtu acc off <> ROutOfFuel.
+Proof.
+  induction fuel as [|f IH]; intros blob mtu acc off Hm H0 Hf; cbn [read_blob_loop].
+  - lia.
+  - destruct (0xFFFF <? off) eqn:B; [discriminate|].
+    destruct (blob off) as [|c|part]; [discriminate| |].
+    + destruct (orb _ _); discriminate.
+    + destruct (Z.of_nat (length part) <? mtu - 1) eqn:L; [discriminate|].
+      apply IH; lia.
+Qed.
+
+Theorem read_value_terminates : forall first blob mtu no_long_read, 2 <= mtu ->
+  read_value (Z.to_nat 0x10000) first blob mtu no_long_read <> ROutOfFuel.
+Proof.
+  intros first blob mtu nlr Hm. unfold read_value.
+  destruct first as [|c|v]; try discriminate.
+  destruct (andb _ _) eqn:E; [|discriminate].
+  apply read_blob_loop_terminates; lia.
+Qed.
+
+(* --- the uuids filter of discover_characteristics: filtered discovery is the filter of the
+       unfiltered discovery, same handle ranges, same number of requests *)
+Theorem discover_characteristics_uuids_spec : forall fuel r sh se us,
+  discover_characteristics_uuids fuel r sh se us
+  = match discover_characteristics fuel r sh se with
+    | (Done es, n) => (Done (filter_uuids us es), n)
+    | other => other
+    end.
+Proof.
+  intros. unfold discover_characteristics_uuids, discover_characteristics.
+  destruct (discover_chars_loop fuel r sh se) as [[es| |c|] n]; reflexivity.
+Qed.
+
+Lemma filter_uuids_sub us es : forall e, In e (filter_uuids us es) -> In e es.
+Proof.
+  intros e. unfold filter_uuids. destruct us; [auto|]. rewrite filter_In. tauto.
+Qed.
+
+Lemma filter_uuids_nil es : filter_uuids [] es = es.
+Proof. reflexivity. Qed.
+
+(* every service of discover_characteristics(uuids, None) finishes: no OutOfFuel, and the
+   total number of requests is bounded by the sum of the per-service bounds *)
+Fixpoint all_bound (svcs : list (Z * Z)) : Z :=
+  match svcs with [] => 0 | (sh, _) :: rest => Z.max 0 (0x10000 - sh) + all_bound rest end.
+
+Lemma all_bound_nonneg svcs : 0 <= all_bound svcs.
+Proof. induction svcs as [|[sh se] rest IH]; cbn [all_bound]; lia. Qed.
+
+Lemma discover_characteristics_all_terminates : forall r svcs us n acc,
+  Forall (fun p => snd p <= 0xFFFF) svcs ->
+  fst (discover_characteristics_all r svcs us n acc) <> OutOfFuel /\
+  Z.of_nat (snd (discover_characteristics_all r svcs us n acc)) <= Z.of_nat n + all_bound svcs.
+Proof.
+  intros r svcs us. induction svcs as [|[sh se] rest IH]; intros n acc F; cbn [discover_characteristics_all all_bound].
+  - split; [discriminate|cbn; lia].
+  - inversion F; subst. cbn [snd] in H1. pose proof (all_bound_nonneg rest) as Hnn.
+    destruct (loop_terminates (cond_le se) (fun s es => proc_plain s es [] 0) true r
+                (fun s => cond_le_bound se s H1) (fun s es a s' => proc_plain_progress0 s es a s')
+                (fuel_for sh) n sh []) as [T1 T2]; [unfold fuel_for; lia|].
+    destruct (loop _ _ _ _ _ _ _ _) as [[es| |c|] n'] eqn:E; cbn [fst snd] in *.
+    + destruct (IH n' (acc ++ filter_uuids us (fix_ends se es)) H2) as [I1 I2]. split; [exact I1|lia].
+    + split; [discriminate|lia].
+    + split; [discriminate|lia].
+    + congruence.
+Qed.
+
+(* one service, no filter: discover_characteristics_all is discover_characteristics *)
+Lemma discover_characteristics_all_one : forall r sh se,
+  discover_characteristics_all r [(sh, se)] [] 0 []
+  = discover_characteristics (fuel_for sh) r sh se.
+Proof.
+  intros. cbn [discover_characteristics_all]. unfold discover_characteristics, discover_chars_loop.
+  destruct (loop _ _ _ _ _ _ _ _) as [[es| |c|] n]; reflexivity.
+Qed.
+
+(* --- fan-out of notify_subscriber / indicate_subscriber over the EATT bearers of a connection *)
+Theorem subscriber_fan_out_routing : forall indicate mtu_of s eatt conn h v,
+  subscriber_fan_out indicate mtu_of s eatt conn h v
+  = map (fun b => (b, kind_op indicate, h, truncate (mtu_of b) v))
+        (filter (fun b => subscribed (kind_bit indicate) s b h) (eatt ++ [conn])).
+Proof.
+  intros. unfold subscriber_fan_out. induction (eatt ++ [conn]) as [|b l IH]; [reflexivity|].
+  cbn [flat_map filter]. rewrite IH. unfold send_single at 1. cbn [orb]. fold (kind_bit indicate).
+  destruct (subscribed (kind_bit indicate) s b h); fold (kind_op indicate); reflexivity.
+Qed.
+
+(* ================================================================== end to end *)
+(* A client of a Bumble server whose database was built by add_services, at any ATT_MTU >= 23,
+   reconstructs the primary services, and for every primary service its include declarations,
+   its characteristics with their handle ranges, for every characteristic its descriptors, and
+   the whole attribute table. *)
+Definition chardecls_of (db : list attr) (s : attr) : list attr := chars_of db (a_handle s) (a_end s).
+
+Theorem client_sees_database : forall ss mtu, 23 <= mtu -> specs_ok ss = true -> total_size ss <= 0xFFFE ->
+  let db := build ss in
+  fst (client_discover_services mtu db) = Done (map to_entry (primary_services db)) /\
+  fst (client_discover_attributes mtu db) = Done (map info_entry db) /\
+  (forall u, fst (client_discover_service mtu db u) = Done (map to_entry (services_with db u))) /\
+  (forall s, In s (primary_services db) ->
+     fst (client_discover_included mtu db (a_handle s) (a_end s))
+       = Done (map to_entry (includes_of db (a_handle s) (a_end s))) /\
+     fst (client_discover_characteristics mtu db (a_handle s) (a_end s))
+       = Done (map to_entry (chardecls_of db s)) /\
+     (forall us, fst (discover_characteristics_uuids (fuel_for (a_handle s))
+                        (fun _ st => srv_read_by_type mtu db UUID_CHARACTERISTIC st (a_end s))
+                        (a_handle s) (a_end s) us)
+                 = Done (filter_uuids us (map to_entry (chardecls_of db s)))) /\
+     True) /\
+  (forall vh ce, 0 <= vh -> ce <= 0xFFFF ->
+     fst (client_discover_descriptors mtu db vh ce) = Done (map info_entry (attrs_in db (vh + 1) ce))).
+Proof.
+  intros ss mtu Hm Hs Ht db.
+  pose proof (build_wf ss Hs Ht) as W. fold db in W. unfold db_wf in W.
+  apply andb_prop in W. destruct W as [W1 W2]. apply andb_prop in W1. destruct W1 as [Wsorted Wsvc].
+  apply andb_prop in W2. destruct W2 as [W2 Wends]. apply andb_prop in W2. destruct W2 as [Wsz Wty].
+  split; [apply discover_services_exact; assumption|].
+  split; [apply discover_attributes_exact; assumption|].
+  split; [intros u; apply discover_service_exact; assumption|].
+  split; [|intros vh ce Hv Hc; apply discover_descriptors_exact; assumption].
+  intros s Hin.
+  assert (Hrange : 1 <= a_handle s /\ a_end s <= 0xFFFF).
+  { pose proof Wsvc as Wsvc'. apply andb_prop in Wsvc'. destruct Wsvc' as [Hc Hle].
+    unfold primary_services in Hin.
+    pose proof (forallb_In _ _ _ Hle Hin) as H1. cbv beta in H1.
+    pose proof (chain_all_valid _ _ _ _ Hc) as G. rewrite Forall_forall in G. specialize (G s Hin). lia. }
+  destruct Hrange as [Hlo Hhi].
+  assert (Hce : char_ends_ok (a_end s) (chars_of db (a_handle s) (a_end s)) = true).
+  { refine (forallb_In _ _ s Wends _). unfold primary_services in Hin. apply filter_In in Hin.
+    apply filter_In. split; [tauto|]. destruct Hin as [_ Hty]. now rewrite Hty. }
+  pose proof (discover_characteristics_exact db mtu (a_handle s) (a_end s) Hm Hlo Hhi Wsorted Wsz Hce) as Hch.
+  split; [apply discover_included_exact; assumption|].
+  split; [exact Hch|].
+  split.
+  - intros us. rewrite discover_characteristics_uuids_spec.
+    unfold client_discover_characteristics in Hch.
+    destruct (discover_characteristics _ _ _ _) as [o n]. cbn [fst] in Hch. subst o. reflexivity.
+  - exact I.
+Qed.
+
+(* ================================================================== the model is stated in these constants *)
+(* Model/GattClientShape.v holds the constants of the anchored code by name (k____); each
+   lemma restates a model definition with every number replaced by its named constant, so
+   that "source constants = model constants" (Props: C12_consts_match_source) is a statement
+   about the functions the theorems are about. All by computation. *)
+From BV Require Import Model.GattClientShape.
+
+Lemma shape_find_information : forall mtu db s e,
+  srv_find_information mtu db s e
+  = if orb (s =? 0) (e <? s) then RErr (k_err_invalid_handle) else
+    reply (map info_entry (take_run (k_fi_entry_hdr) false (fun a => u_len (a_type a))
+                                    (mtu - k_fi_space) None (filter (in_range s e) db))).
+Proof. reflexivity. Qed.
+
+Lemma shape_find_by_type_value : forall mtu db u s e,
+  srv_find_by_type_value mtu db u s e
+  = reply (map to_entry (take_run (k_fbtv_entry) false (fun _ => 0) (mtu - k_fbtv_space) None
+            (filter (fun a => andb (is_service_with (mkU 2 (k_uuid_primary)) u a) (in_range s e a)) db))).
+Proof. reflexivity. Qed.
+
+Lemma shape_read_by_type : forall mtu db t s e,
+  srv_read_by_type mtu db t s e
+  = if orb (s =? 0) (e <? s) then RErr (k_err_invalid_handle) else
+    let lim := Z.min (mtu - k_rbt_limit_off) (k_rbt_limit_max) in
+    reply (map (to_entry_trunc lim)
+             (take_run (k_rbt_entry_hdr) true (fun a => Z.min (disc_vlen a) lim) (mtu - k_rbt_space) None
+                (filter (fun a => andb (uuid_eqb (a_type a) t) (in_range s e a)) db))).
+Proof. reflexivity. Qed.
+
+Lemma shape_read_by_group : forall mtu db t s e,
+  srv_read_by_group mtu db t s e
+  = let lim := Z.min (mtu - k_rbgt_limit_off) (k_rbgt_limit_max) in
+    reply (map (to_entry_trunc lim)
+             (take_run (k_rbgt_entry_hdr) true (fun a => Z.min (disc_vlen a) lim) (mtu - k_rbgt_space) None
+                (filter (fun a => andb (uuid_eqb (a_type a) t) (in_range s e a)) db))).
+Proof. reflexivity. Qed.
+
+Lemma shape_reply_not_found : reply [] = RErr (k_err_not_found).
+Proof. reflexivity. Qed.
+
+Lemma shape_read : forall mtu v,
+  srv_read mtu v = VVal (firstn (Z.to_nat (Z.min (mtu - k_read_size) (Z.of_nat (List.length v)))) v).
+Proof. reflexivity. Qed.
+
+Lemma shape_read_blob : forall mtu v off,
+  srv_read_blob mtu v off
+  = let len := Z.of_nat (List.length v) in
+    if len <? off then VErr (k_err_invalid_offset)
+    else if len <=? mtu - k_blob_not_long then VErr (k_err_not_long)
+    else VVal (sublist off (Z.min (mtu - k_blob_part) (len - off)) v).
+Proof. reflexivity. Qed.
+
+Lemma shape_client_read : forall fuel first blob mtu nlr,
+  read_value fuel first blob mtu nlr
+  = match first with
+    | VNone => RRaised (-3)
+    | VErr c => RRaised c
+    | VVal v => if andb (negb nlr) (Z.of_nat (List.length v) =? mtu - k_read_long_if)
+                then read_blob_loop fuel blob mtu v (Z.of_nat (List.length v)) else RDone v
+    end.
+Proof. reflexivity. Qed.
+
+Lemma shape_client_blob_step : forall f blob mtu acc off,
+  read_blob_loop (S f) blob mtu acc off
+  = if 0xFFFF <? off then RRaised (-4) else
+    match blob off with
+    | VNone => RRaised (-3)
+    | VErr c => if orb (c =? k_err_not_long) (c =? k_err_invalid_offset) then RDone acc else RRaised c
+    | VVal part => if Z.of_nat (List.length part) <? mtu - k_read_short_part then RDone (acc ++ part)
+                   else read_blob_loop f blob mtu (acc ++ part) (off + Z.of_nat (List.length part))
+    end.
+Proof. reflexivity. Qed.
+
+Lemma shape_write_max : GATT_MAX_ATTRIBUTE_VALUE_SIZE = k_write_max.
+Proof. reflexivity. Qed.
+
+Lemma shape_truncate : forall mtu v,
+  truncate mtu v = if mtu - k_notify_trunc_if <? Z.of_nat (List.length v)
+                   then firstn (Z.to_nat (mtu - k_notify_trunc)) v else v.
+Proof. reflexivity. Qed.
+
+Lemma shape_indicate_same_truncation :
+  k_indicate_trunc_if = k_notify_trunc_if /\ k_indicate_trunc = k_notify_trunc /\
+  k_indicate_cccd_len = k_notify_cccd_len /\ k_fi_entry_hdr2 = k_fi_entry_hdr /\
+  k_fbtv_entry2 = k_fbtv_entry.
+Proof. repeat split. Qed.
+
+Lemma shape_send_single : forall indicate force mtu_of s b h v,
+  send_single indicate force mtu_of s b h v
+  = if orb force (subscribed (if indicate then k_indicate_bit else k_notify_bit) s b h)
+    then [(b, (if indicate then k_op_indication else k_op_notification), h, truncate (mtu_of b) v)]
+    else [].
+Proof. reflexivity. Qed.
+
+Lemma shape_cccd_length : forall s b h v,
+  write_cccd s b h v
+  = if Z.of_nat (List.length v) =? k_write_cccd_len
+    then assoc_set b (assoc_set h v (match assoc b s with Some c => c | None => [] end)) s else s.
+Proof.
+  intros. unfold write_cccd. change (k_write_cccd_len) with 2.
+  destruct v as [|x [|y [|z v]]]; try reflexivity.
+  cbn [List.length Nat.eqb]. assert (E : (Z.of_nat (S (S (S (List.length v)))) =? 2) = false) by lia. now rewrite E.
+Qed.
+
+Lemma shape_loops :
+  (forall s, cond_lt_ffff s = (s <? k_services_while_lt)) /\
+  k_service_while_lt = k_services_while_lt /\ k_service_stop_at = 0xFFFF /\
+  k_services_ending = 0xFFFF /\ k_attrs_ending = 0xFFFF /\
+  k_services_first_handle = 1 /\ k_service_first_handle = 1 /\ k_attrs_first_handle = 1 /\
+  (forall p st es acc le, proc_group p false st es acc le = proc_group p false st es acc le) /\
+  (forall st acc lh, proc_plain st [] acc lh = Next acc (lh + k_chars_advance)) /\
+  (forall p q st acc le, proc_group p q st [] acc le = Next acc (le + k_services_advance)) /\
+  k_service_advance = 1 /\ k_included_advance = 1 /\ k_descs_advance = 1 /\
+  k_attrs_advance = 1 /\ k_read_by_uuid_advance = 1 /\ k_descs_first = 1 /\ k_chars_prev_end = 1.
+Proof. repeat split. Qed.
+
+Lemma shape_build :
+  (forall ss, build ss = build_from (k_next_handle_base) [] ss) /\
+  PROP_NOTIFY = k_prop_notify /\ PROP_INDICATE = k_prop_indicate /\
+  UUID_PRIMARY = mkU 2 (k_uuid_primary) /\ UUID_SECONDARY = mkU 2 (k_uuid_secondary) /\
+  UUID_INCLUDE = mkU 2 (k_uuid_include) /\ UUID_CHARACTERISTIC = mkU 2 (k_uuid_characteristic) /\
+  UUID_CCCD = mkU 2 (k_uuid_cccd) /\
+  (forall h c, nth 0 (char_attrs h c) (mkA 0 0 (U16 0) BCccd)
+               = mkA h (h + char_size c - 1) UUID_CHARACTERISTIC
+                     (BCharDecl (c_props c) (h + k_chardecl_value_handle) (c_uuid c))).
+Proof. repeat split. Qed.
